@@ -293,7 +293,7 @@ func (fr *Frame) evalRecvArgs(st *State, call *ast.CallExpr, fn *types.Func, sig
 			case LObj:
 				recv = loc.Ref
 			case LHeap:
-				recv = e.subRef(loc.Owner, loc.Field, loc.Ref)
+				recv = e.subRefIn(st, loc.Owner, loc.Field, loc.Ref)
 			default:
 				// struct value in a local: box a copy (writes by the callee are lost -> flagged)
 				ref := e.alloc(st, xt, "recv")
@@ -855,10 +855,22 @@ func (fr *Frame) applyContract(st *State, fc *FuncContract, fn *types.Func, sig 
 		fr.havocModItem(st, m, b, pkgPath, call)
 	}
 	var results []*Term
+	freshRes := map[string]bool{}
+	for _, n := range strings.Fields(fc.Options["fresh"]) {
+		freshRes[n] = true
+	}
 	for i := 0; i < sig.Results().Len(); i++ {
 		t := sig.Results().At(i).Type()
 		v := Fresh("r$"+fn.Name(), e.sortOf(t))
-		st.Assume(e.typeFacts(v, t, st))
+		if i < len(cn.results) && freshRes[cn.results[i]] {
+			// `option fresh <result>`: a non-nil result is a newly allocated object
+			al := e.Heap(st, "$alloc", ArrSort(IntSort, BoolSort))
+			st.Assume(Ge(v, IntLit(0)))
+			st.Assume(Implies(Neq(v, IntLit(0)), Not(Select(al, v))))
+			st.heap["$alloc"] = Store(al, v, True)
+		} else {
+			st.Assume(e.typeFacts(v, t, st))
+		}
 		results = append(results, v)
 	}
 	b = cn.bind(recv, args, results)
@@ -868,8 +880,8 @@ func (fr *Frame) applyContract(st *State, fc *FuncContract, fn *types.Func, sig 
 		func() {
 			defer func() {
 				if r := recover(); r != nil {
-					if se, ok := r.(specErr); ok && strings.Contains(se.msg, "label not reached") {
-						return
+					if se, ok := r.(specErr); ok && (strings.Contains(se.msg, "label not reached") || strings.Contains(se.msg, "unresolved name")) {
+						return // clause about the callee's internal labels/locals: not usable at a call site
 					}
 					panic(r)
 				}
@@ -939,8 +951,8 @@ func (fr *Frame) checkHeld(st *State, x *SExpr, b map[string]*SVal, pkgPath stri
 }
 
 func (fr *Frame) checkCallPre(st *State, fn *types.Func, recv *Term, args []*Term, call *ast.CallExpr) {
-	if fr.top.fc == nil {
-		return
+	if fr.top.fc == nil || fr.fn != fr.top.fn {
+		return // call-site preconditions constrain the calls written in the function under contract (and its closures)
 	}
 	cps := fr.top.fc.CallPre[fn.Name()]
 	if len(cps) == 0 {
